@@ -16,7 +16,7 @@ import numpy as np
 from . import core
 from .core import Model, Outcome
 from .poly import Poly, nu
-from .universe import Universe, FlodymArray
+from .universe import Universe, FlodymArray, Dimension, DimensionSet
 from . import replay_arrays, replay_index, replay_tables
 
 
@@ -43,10 +43,16 @@ def exec_arrayops(vec, layout):
         xval = yval = (lambda g, seed=seed: Fraction(nu(seed, g)))
     else:
         xval = yval = replay_arrays.gen_val
-    x = U.array(cfg["xd"], U.gen_values(1, cfg["xd"], "num", xval, layout), name="x")
+    lay = "C" if layout == "I" else layout
+    x = U.array(cfg["xd"], U.gen_values(1, cfg["xd"], "num", xval, lay), name="x")
     y = None
     if op in ("add", "sub", "mul", "div", "min", "max", "pow"):
-        y = U.array(cfg["yd"], U.gen_values(2, cfg["yd"], "num", yval, layout), name="y")
+        y = U.array(cfg["yd"], U.gen_values(2, cfg["yd"], "num", yval, lay), name="y")
+    if layout == "I":
+        # the same numbers stored as 64-bit integers (where they are whole numbers): storage order must not matter for them either
+        for a in (x, y):
+            if a is not None and np.all(np.asarray(a.values, dtype=float) == np.round(np.asarray(a.values, dtype=float))):
+                a.values = np.asarray(a.values, dtype=float).astype(np.int64)
     try:
         with np.errstate(all="ignore"):
             r = replay_arrays.apply_op(U, cfg, x, y, replay_arrays.S_NUM)
@@ -92,7 +98,7 @@ def run_orbits(args):
     engine, vecs = args
     ex = exec_arrayops if engine == "arrayops" else exec_index
     problems = []
-    for layout in ("C", "F"):
+    for layout in (("C", "F", "I") if engine == "arrayops" else ("C", "F")):
         results = [ex(v, layout) for v in vecs]
         ref = next((r for r in results if r is not None), None)
         for v, r in zip(vecs, results):
@@ -289,10 +295,48 @@ def shared_labels_orbit(case):
     return problems[:4]
 
 
+def large_orbit(case):
+    """LARGE instances (tens of thousands of entries - beyond any size at which an implementation might switch algorithms): the same
+    operands stored in different dimension orders give the same result by label.  case = (kind, n)"""
+    kind, n = case
+    rng = np.random.default_rng(n)
+    a = Dimension(name="dim_a", letter="a", items=[f"a{i}" for i in range(n)])
+    b = Dimension(name="dim_b", letter="b", items=[f"b{i}" for i in range(n - 10)][::-1])
+    c = Dimension(name="dim_c", letter="c", items=["c1", "c2"])
+    va = rng.integers(0, 9, size=(n, n - 10)).astype(float)
+    vy = rng.integers(0, 9, size=(2, n - 10, n)).astype(float)            # over (c, b, a)
+    mk = lambda ds, v: FlodymArray(dims=DimensionSet(dim_list=list(ds)), values=np.ascontiguousarray(v))
+    problems = []
+    try:
+        if kind == "arith":
+            x = mk((a, b), va)
+            orders = {"cba": mk((c, b, a), vy), "cab": mk((c, a, b), vy.transpose(0, 2, 1)), "abc": mk((a, b, c), vy.transpose(2, 1, 0))}
+            for opname, f in (("+", lambda p, q: p + q), ("-", lambda p, q: p - q), ("maximum", lambda p, q: p.maximum(q)), ("*", lambda p, q: p * q)):
+                res = {}
+                for k, y in orders.items():
+                    r = f(x, y)
+                    res[k] = r.sum_to(("a", "b")).values if "c" in r.dims.letters and opname == "*" else (r.values if r.dims.letters == ("a", "b") else r.sum_to(("a", "b")).values)
+                ref = res["abc"]
+                for k, v in res.items():
+                    if v.shape != ref.shape or not np.array_equal(v, ref):
+                        problems.append(f"{{C04,C01}} [large, {n} x {n - 10}] x(a,b) {opname} y: the result for y stored as {k} differs by label from y stored as abc")
+        else:
+            z = mk((a, b), va)
+            zt = mk((b, a), va.T)
+            dims_ab = DimensionSet(dim_list=[a, b])
+            for k, src in (("(a,b)", z), ("(b,a)", zt)):
+                back = FlodymArray.from_df(dims=dims_ab, df=src.to_df())
+                if not np.array_equal(back.values, va):
+                    problems.append(f"{{C04,C11}} [large, {n} x {n - 10}] from_df(to_df(x)) into dims (a,b) with x stored as {k} differs from x by label")
+    except Exception as e:
+        problems.append(f"{{C04,C01,C11}} [large, {kind}, {n}] raised {type(e).__name__}: {str(e)[:160]}")
+    return problems
+
+
 def _call_named(args):
     name, a = args
     return {"orbits": run_orbits, "lifetime": lifetime_orbit, "stack": stack_split_orbit, "tables": tables_orbit,
-            "shared": shared_labels_orbit}[name](a)
+            "shared": shared_labels_orbit, "large": large_orbit}[name](a)
 
 
 def check_C04(tier, seed):
@@ -329,6 +373,7 @@ def check_C04(tier, seed):
     jobs += [("stack", i) for i in range(12)]
     jobs += [("shared", (typed, n)) for typed in (True, False) for n in (3, 12)]
     jobs += [("tables", (s, w, st)) for s in range(4) for w in ("", "a", "b", "c") for st in (1, 2)]
+    jobs += [("large", ("arith", 110)), ("large", ("tables", 130))] + ([] if quick else [("large", ("arith", 300)), ("large", ("tables", 400))])
     bad = core.replay_parallel(_call_named, jobs)
     out.replayed += nvec
     # direction B: recorded random programs (histories!) validated by TLC - a result that depends on what was done to another
